@@ -299,4 +299,10 @@ Theorem C14_fragment_single_eof_line :
     length (render_prog ss) = S (S (S (S (length (render ss))))).
 Proof. exact fragment_single_eof_line. Qed.
 
+(* UNBOUNDED, on the grammar model: for every program of the (extended) fragment parents precede their children *)
+From PasfmtVerif Require Import Model.Fragment Proofs.FragmentProofs.
+Theorem C14_fragment_parents_precede_children :
+  forall ss : stmts, parents_ok (r_lines (parse_file_model (render_prog ss) [])) = true.
+Proof. exact fragment_parents_ok. Qed.
+
 
